@@ -469,8 +469,10 @@ def _escaping_uses(fnode, name):
             continue
         if isinstance(p, ast.keyword) and p.arg is None:
             continue        # **name unpacks a copy
-        if isinstance(p, ast.Starred):
+        if isinstance(p, ast.Starred) or isinstance(p, ast.FormattedValue):
             continue
+        if isinstance(p, ast.Dict) and any(k is None and v is n for k, v in zip(p.keys, p.values)):
+            continue        # {**name, ...} builds a new dict
         out.append(f"`{ast.unparse(p)[:70]}` (line {n.lineno})")
     return out
 
